@@ -504,13 +504,18 @@ spif_socket_send(spif_socket_t self, spif_str_t data)
                     }
                 }
                 break;
+            case EBADF:
+                /* Not a descriptor (any more):  nothing to close. */
+                self->fd = -1;
+                SPIF_SOCKET_FLAGS_CLEAR(self, SPIF_SOCKET_FLAGS_IOSTATE);
+                return FALSE;
+                break;
             case EIO:
             case EPIPE:
-                close(self->fd);
-                /* Drop */
-            case EBADF:
             case EINVAL:
             default:
+                /* We are about to forget this descriptor, so release it. */
+                close(self->fd);
                 self->fd = -1;
                 SPIF_SOCKET_FLAGS_CLEAR(self, SPIF_SOCKET_FLAGS_IOSTATE);
                 return FALSE;
